@@ -269,6 +269,39 @@ def field_of_self(prog, body, op, field):
     return nm is not None and (nm == 'self.' + field or nm.endswith('.' + field))
 
 
+def table_lookups(prog, p):
+    """Look-ups of an archetype table by the bytes of an identifier, on path p, in either spelling:
+    `get[_mut]_with_foreign(self, X)` or `foreign_identifier_lookup.get(X.as_slice())` followed by `get[_mut](self, id)`.
+    -> [{'i': event index of the (first) call, 'key': term X, 'miss': True if the path found no table, 'hit': True if
+    it found one, 'table': term of the table found (or None)}]"""
+    S = pathsem.strip_refs
+    fil = adt_field_index(prog, 'archetypes::Archetypes', 'foreign_identifier_lookup')
+    out = []
+    for g in p.calls(lambda g: g['name'] in ('get_with_foreign', 'get_mut_with_foreign')):
+        d = p.lookup(('discr', g['ret']))
+        out.append({'i': g['i'], 'key': S(g['vals'][1]) if len(g['vals']) > 1 else None, 'miss': d == 0, 'hit': d == 1,
+                    'table': ('f', ('down', g['ret'], 'Some', 1), 0, 'core::option::Option'), 'ret': g['ret']})
+    for g in p.calls(lambda g: g['name'] in ('get', 'get_key_value') and 'HashMap' in g['path'] and len(g['args']) >= 2 and pathsem.is_field_of(g['args'][0], 'archetypes::Archetypes', fil)):
+        key = S(g['vals'][1])
+        while isinstance(key, tuple) and key[0] == 'call' and key[1].rsplit('::', 1)[-1] in ('as_slice', 'deref', 'as_ref', 'borrow') and key[2]:
+            key = S(key[2][0])
+        d = p.lookup(('discr', g['ret']))
+        rec = {'i': g['i'], 'key': key, 'miss': d == 0, 'hit': False, 'table': None, 'ret': g['ret']}
+        if d == 1:
+            pay = ('f', ('down', g['ret'], 'Some', 1), 0, 'core::option::Option')
+            for h in p.calls(lambda h: h['name'] in ('get', 'get_mut') and h['path'].startswith('archetypes::Archetypes') and h['i'] > g['i']
+                             and pathsem.mentions(h['vals'][1] if len(h['vals']) > 1 else None, lambda t: t == pay)):
+                d2 = p.lookup(('discr', h['ret']))
+                if d2 == 0:
+                    rec['miss'] = True
+                elif d2 == 1:
+                    rec['hit'] = True
+                    rec['table'] = ('f', ('down', h['ret'], 'Some', 1), 0, 'core::option::Option')
+                    rec['ret'] = h['ret']
+        out.append(rec)
+    return out
+
+
 @rule('P7', props=['C13', 'C05', 'C01', 'C10', 'C16'], floor=6, configs=('all', 'default'))
 def p7_archetype_tables(prog):
     """Archetype table protocol: (a) an archetype is inserted into raw_archetypes only on the miss branch of
@@ -312,9 +345,10 @@ def p7_archetype_tables(prog):
                 r.viol('P7', key + '/not-analysable', f.loc(), 'path enumeration cut off')
             for p in E.paths:
                 for e in p.calls(lambda e: 'RawTable' in e['path'] and e['name'] in RAW_INS):
-                    looks = [g for g in p.calls(lambda g: g['i'] < e['i'] and g['name'] in ('get', 'get_with_foreign', 'get_mut_with_foreign', 'contains_key', 'get_key_value', 'get_mut'))
-                             if g['name'].endswith('with_foreign') or pathsem.is_field_of(g['args'][0], 'archetypes::Archetypes', fil)]
+                    looks = [g for g in p.calls(lambda g: g['i'] < e['i'] and g['name'] in ('contains_key', 'get_mut'))
+                             if pathsem.is_field_of(g['args'][0], 'archetypes::Archetypes', fil)]
                     miss = [g for g in looks if (p.lookup(g['ret']) is False if g['name'] == 'contains_key' else p.lookup(('discr', g['ret'])) == 0)]
+                    miss += [t_ for t_ in table_lookups(prog, p) if t_['i'] < e['i'] and t_['miss']]
                     if not miss and 'm' not in rep:
                         rep.add('m')
                         r.viol('P7', key + '/not-on-miss-branch', f.loc(e['ln']), 'archetype inserted without first finding that no table for these identifier bytes exists: entities with one component set could be split over two tables')
@@ -518,7 +552,7 @@ def c10a_clone_from_clears(prog):
             if cfs:
                 dest = S(cfs[0]['vals'][0])
                 # dest must be the table found for the source's identifier
-                ok = isinstance(dest, tuple) and pathsem.mentions(dest, lambda t: t[0] == 'call' and t[1].endswith('::get_mut_with_foreign') and ident_of(p, S(t[2][1])) == s_el)
+                ok = isinstance(dest, tuple) and any(t_['hit'] and t_['key'] is not None and ident_of(p, t_['key']) == s_el and pathsem.mentions(dest, lambda t, r_=S(t_['ret']): t == r_) for t_ in table_lookups(prog, p))
                 if not ok:
                     once('clone-target', cfs[0]['ln'], 'a source archetype is cloned into a table that was not looked up by the source archetype\'s identifier')
                 at = cfs[0]['i']
@@ -529,7 +563,7 @@ def c10a_clone_from_clears(prog):
                     if p.ended == 'return':
                         once('clone-not-inserted', cls[0]['ln'], 'a freshly cloned archetype is not inserted into the destination')
                     continue
-                miss = p.calls(lambda e: e['name'] == 'get_mut_with_foreign' and e['i'] < cls[0]['i'] and ident_of(p, S(e['vals'][1])) == s_el and p.lookup(('discr', e['ret'])) == 0)
+                miss = [t_ for t_ in table_lookups(prog, p) if t_['i'] < cls[0]['i'] and t_['miss'] and t_['key'] is not None and ident_of(p, t_['key']) == s_el]
                 if not miss:
                     once('clone-without-lookup', cls[0]['ln'], 'a source archetype is cloned into a new table without first finding that the destination has no table for its identifier')
                 at = cls[0]['i']
